@@ -52,7 +52,7 @@ CHECKS = {
     ),
     "C08": (
         "exploration",
-        "null-map workload (whole, uncut, unpainted or all-painted scaffolds at every texel size with Pretext's end rounding, sub-texel scaffolds present/absent, inputs with leading/trailing gaps and haplotype-prefixed names) with identity + zero-statistics oracle; every 25th map also through the pretext-to-asm CLI (one assembly file, contents, zero statistics in log and info YAML); FASTA-input leg (LF/CRLF) run with cold and warm index cache; input text in other legal spellings (N-type gaps, TPF method column, whole-number texel header)",
+        "null-map workload (whole, uncut, unpainted or all-painted scaffolds at every texel size with Pretext's end rounding, sub-texel scaffolds present/absent, inputs with leading/trailing gaps and haplotype-prefixed names) with identity + zero-statistics oracle; every 25th map also through the pretext-to-asm CLI (one assembly file, contents, zero statistics in log and info YAML); FASTA-input leg (LF/CRLF) run with cold and warm index cache; contig names that look like assembly-name prefixes; input text in other legal spellings (N-type gaps, TPF method column, whole-number texel header)",
         "Each generated null map must give exactly one (primary) assembly with the input scaffolds by name and row-for-row, zero cuts/breaks/joins; painted variant: same row lists, names prefix+rank by non-increasing sequence length.",
         "Last-contig precondition applied as > ceil(t)+1 bp; order compared by name; scaffold-terminal input gaps are not expected in the output (C07).",
         "3-C08",
@@ -73,7 +73,7 @@ CHECKS = {
     ),
     "C11": (
         "exploration",
-        "independent junction counter over contig ends vs AssemblyStats; metamorphic recomputation of the real statistics with whole scaffolds reversed; CLI slice: log line and info.yaml vs counts recomputed from the written files, with the report of an earlier run in place beforehand and contig-level assemblies under unedited maps; prefix assigned again between remap and fuse",
+        "independent junction counter over contig ends vs AssemblyStats; metamorphic recomputation of the real statistics with whole scaffolds reversed; CLI slice: log line and info.yaml vs counts recomputed from the written files, with the report of an earlier run in place beforehand and contig-level assemblies under unedited maps; prefix assigned again between remap and fuse; three- and four-haplotype Primary maps (fragments recounted from the files)",
         "On every completed run reported cuts/breaks/joins are compared with an independent count; the real make_stats is re-run with random whole scaffolds of input and/or output reversed and must not change; the CLI's log line, yaml totals and haplotig-removal count are compared with the files it wrote.",
         "Strands +1/-1 only.",
         "3-C11",
@@ -122,7 +122,7 @@ CHECKS = {
     ),
     "C17": (
         "exploration",
-        "differential observer: byte equality of all output files between a reference run and runs differing in one axis (PYTHONHASHSEED subprocesses, cwd, stream buffer, cache cold/warm, earlier AND later invocations in the same process, other content at the same path earlier in the process, relative paths from another directory with out-of-date caches, fresh interpreter with and without -O); tag-noise cases (several special tags per scaffold) under 6-12 hash seeds; FASTA/AGP/TPF input leg; asm-format; the 12 specimens",
+        "differential observer: byte equality of all output files between a reference run and runs differing in one axis (PYTHONHASHSEED subprocesses, cwd, stream buffer, cache cold/warm, earlier AND later invocations in the same process, other content at the same path earlier in the process, relative paths from another directory with out-of-date caches, fresh interpreter with and without -O); tag-noise cases (several special tags per scaffold, pairs of set-aside tags on one piece) under 6-12 hash seeds; FASTA/AGP/TPF input leg; asm-format; the 12 specimens",
         "Each generated case (tag-rich designs incl. two haplotypes) and each specimen is run along every axis and all files compared byte for byte.",
         "Same output directory for all runs of a case, so absolute paths in logs coincide by construction.",
         "3-C17",
@@ -136,7 +136,7 @@ CHECKS = {
     ),
     "C19": (
         "exploration",
-        "icontract post-conditions on Fragment.overlaps/overlap_length/abuts/gap_between vs interval arithmetic (exhaustive [0,7]^2 + random to 1e12 and beyond 2**53, judged against the integers given); O(n^2) reference vs find_overlapping_fragments and vs parsed stderr of asm-format --qc-overlaps",
+        "icontract post-conditions on Fragment.overlaps/overlap_length/abuts/gap_between vs interval arithmetic (exhaustive [0,7]^2 + random to 1e12 and beyond 2**53, judged against the integers given); O(n^2) reference vs find_overlapping_fragments (assemblies with base-pair to chromosome-sized pieces) and vs parsed stderr of asm-format --qc-overlaps",
         "Every predicate call made by the workloads is compared with closed-interval set semantics, mutual consistency is asserted per pair, and the scan / CLI report is compared pair-for-pair with a quadratic reference on random assemblies.",
         "Closed 1-based integer intervals; fragment occurrences identified by (scaffold,row).",
         "3-C19",
